@@ -36,6 +36,9 @@ SafeAcceptedEvent(e) == SafeChain(e) /\ WireCompatible(e.old, e.new) /\ e.verdic
 SafeAccepted == SafeAcceptedEvent(Trace[i])
 SafeAcceptedAll == SafeAcceptedEvent(Trace[i]) \/ Bad
 
+(* not a property: prints the wire cases of every recorded pair (cross-check with generated code) *)
+WireAll == PrintT(ToJson(<<"@@", [i |-> i, wc |-> WireCompatible(Trace[i].old, Trace[i].new), cases |-> WireCases(Trace[i].old, Trace[i].new)]>>))
+
 UnsafeRejectedEvent(e) == e.new \in {r.s : r \in DocUnsafeEdits(e.old, e.old)} /\ e.verdict = "reject"
 UnsafeRejected == UnsafeRejectedEvent(Trace[i])
 UnsafeRejectedAll == UnsafeRejectedEvent(Trace[i]) \/ Bad
